@@ -227,7 +227,9 @@ def mask(hdrs):
 def compare(ctx, family, case, w, a, sse=False):
     ctx.mon(f"{family}-pairs")
     if sse and a[0] == "resp":
-        a = (a[0], a[1], [h for h in a[2] if h != ("connection", "keep-alive")], a[3])
+        a = (a[0], a[1], [h for h in a[2] if h != ("connection", "keep-alive")], a[3].replace(b": ping\n\n", b""))
+    if sse and w[0] == "resp":
+        w = (w[0], w[1], w[2], w[3].replace(b": ping\n\n", b""))  # how many keep-alive pings fit in is a matter of timing
     if w == a:
         return
     if w[0] != a[0]:
